@@ -1372,6 +1372,8 @@ class tzical(object):
             parms = parms[1:]
             if invtz:
                 if name == "BEGIN":
+                    if comptype:
+                        raise ValueError("component not closed: "+comptype)
                     if value in ("STANDARD", "DAYLIGHT"):
                         # Process component
                         pass
